@@ -17,8 +17,7 @@ NA = {
 PENDING = 'check not built yet in this round (planned, DESIGN.md section 6/10); nothing is claimed for it'
 
 # checks that exist but are being adapted (not claimed until green on the unchanged tree again)
-HOLD = {'C02': 'check exists (checks/c02.py) but its model of ref_collapse_edge_geometry / the edge smoother is being '
-               'updated to the two fix: commits 285dd96 and 36d5222 in /repo; not claimed until it is green again'}
+HOLD = {}
 
 ALL = ['C%02d' % i for i in range(1, 21)]
 
